@@ -14,9 +14,48 @@ import (
 	"google.golang.org/protobuf/types/known/wrapperspb"
 )
 
-type pmsg struct{ id, kind, val int }
+// old: the value the item had before the write (0 = absent), the OldValue of the published change
+type pmsg struct{ id, kind, val, old int }
 
-func (m pmsg) coq() string { return vcoq.App("mkM", vcoq.Int(m.id), vcoq.Int(m.kind), vcoq.Int(m.val)) }
+func (m pmsg) coq() string {
+	return vcoq.App("mkMo", vcoq.Int(m.id), vcoq.Int(m.kind), vcoq.Int(m.val), vcoq.Int(m.old))
+}
+
+// the equivalence of the collection and the include filter of the subscription, as data
+// (Bus/PipeHeld.v eqspec / incspec)
+type fcfg struct {
+	eq    int // 0 none, 1 WithNoDuplicates, 2 same value/10
+	inc   int // 0 none, 1 value >= incT, 2 id != incID
+	incT  int
+	incID int
+}
+
+func (c fcfg) coq() string {
+	eq := []string{"EqNone", "EqExact", "EqTens"}[c.eq]
+	inc := "IncNone"
+	switch c.inc {
+	case 1:
+		inc = vcoq.App("IncGe", vcoq.Int(c.incT))
+	case 2:
+		inc = vcoq.App("IncNotId", vcoq.Int(c.incID))
+	}
+	return vcoq.App("mkFC", eq, inc)
+}
+
+func (c fcfg) visible(id, val int) bool {
+	switch c.inc {
+	case 1:
+		return val >= c.incT
+	case 2:
+		return id != c.incID
+	}
+	return true
+}
+
+func (c fcfg) tags() []string {
+	t := []string{"eq:" + []string{"none", "exact", "tens"}[c.eq], "include:" + []string{"none", "value-ge", "not-id"}[c.inc]}
+	return t
+}
 
 func ival(m proto.Message) int {
 	if m == nil {
@@ -66,7 +105,7 @@ func (s *pipeSub) start() {
 }
 
 type pact struct {
-	kind string // send recv cancel
+	kind string // send recv cancel timeout
 	m    pmsg
 }
 
@@ -76,6 +115,8 @@ func (a pact) coq() string {
 		return vcoq.App("PASend", a.m.coq())
 	case "recv":
 		return "PARecv"
+	case "timeout":
+		return "PATimeout"
 	}
 	return "PACancel"
 }
@@ -89,15 +130,49 @@ func (g *gen) pipeScript(idx int) error {
 	defer cancel()
 
 	bp := r.Chance(55)
-	updatesOnly := r.Chance(25)
-	opts := []resource.ReadOption{resource.WithBackpressure(bp), resource.WithUpdatesOnly(updatesOnly)}
+	updatesOnly := r.Chance(33)
 	kindSel := r.Intn(10) // 0-2 value, 3-5 collection pull, 6-9 pullid
+	// the first scripts of a run go through Value.Set's 5 s give-up: a backpressured subscriber that
+	// does not receive while a write is in flight (each costs a little over 5 s)
+	nTimeout := 1
+	if g.tier == "thorough" {
+		nTimeout = 6
+	}
+	timeoutMode := idx < nTimeout
+	if timeoutMode {
+		bp, kindSel = true, 0
+	}
+	// resource options x read options: equivalence of the collection, include filter
+	var cfg fcfg
+	if kindSel > 2 {
+		switch p := r.Intn(100); {
+		case p < 30:
+			cfg.eq = 1
+		case p < 50:
+			cfg.eq = 2
+		}
+		switch p := r.Intn(100); {
+		case p < 22:
+			cfg.inc, cfg.incT = 1, []int{5, 15, 25}[r.Intn(3)]
+		case p < 32:
+			cfg.inc, cfg.incID = 2, r.Range(1, 3)
+		}
+	}
+	opts := []resource.ReadOption{resource.WithBackpressure(bp), resource.WithUpdatesOnly(updatesOnly)}
+	switch cfg.inc {
+	case 1:
+		t := cfg.incT
+		opts = append(opts, resource.WithInclude(func(_ string, m proto.Message) bool { return ival(m) >= t }))
+	case 2:
+		x := idNames[cfg.incID]
+		opts = append(opts, resource.WithInclude(func(id string, _ proto.Message) bool { return id != x }))
+	}
 	var stages []string
 	var write func(m pmsg) // performs the write that publishes m
 	valonly := false
 	sub := &pipeSub{rcmd: make(chan struct{})}
 	exists := map[int]int{} // collection: id -> value
-	pullID := 0
+	pullID, item0 := 0, 0
 	desc := ""
 	switch {
 	case kindSel <= 2:
@@ -110,7 +185,7 @@ func (g *gen) pipeScript(idx int) error {
 			if !ok {
 				return pmsg{}, false
 			}
-			return pmsg{0, 0, ival(c.Value)}, true
+			return pmsg{0, 0, ival(c.Value), 0}, true
 		}
 		valonly = true
 		if !bp {
@@ -118,12 +193,23 @@ func (g *gen) pipeScript(idx int) error {
 		}
 		seeds := "[]"
 		if !updatesOnly {
-			seeds = vcoq.List([]string{pmsg{0, 2, v0}.coq()})
+			seeds = vcoq.List([]string{pmsg{0, 2, v0, 0}.coq()})
 		}
 		stages = append(stages, vcoq.App("StFwd", seeds, "None"))
 		write = func(m pmsg) { _, _ = v.Set(&wrapperspb.Int64Value{Value: int64(m.val)}) }
 	default:
 		var copts []resource.Option
+		switch cfg.eq {
+		case 1:
+			copts = append(copts, resource.WithNoDuplicates())
+		case 2:
+			copts = append(copts, resource.WithMessageEquivalence(func(x, y proto.Message) bool {
+				if x == nil || y == nil {
+					return x == nil && y == nil
+				}
+				return ival(x)/10 == ival(y)/10
+			}))
+		}
 		n0 := r.Range(0, 3)
 		for id := 1; id <= n0; id++ {
 			val := r.Range(1, 9)
@@ -139,7 +225,9 @@ func (g *gen) pipeScript(idx int) error {
 		var seedL []string
 		if !updatesOnly {
 			for _, id := range seedIDs {
-				seedL = append(seedL, pmsg{id, 1, exists[id]}.coq())
+				if cfg.visible(id, exists[id]) { // itemSlice leaves out what the include filter excludes
+					seedL = append(seedL, pmsg{id, 1, exists[id], 0}.coq())
+				}
 			}
 		}
 		if !bp {
@@ -154,18 +242,19 @@ func (g *gen) pipeScript(idx int) error {
 				if !ok {
 					return pmsg{}, false
 				}
-				return pmsg{idOf(c.Id), int(c.ChangeType), ival(c.NewValue)}, true
+				return pmsg{idOf(c.Id), int(c.ChangeType), ival(c.NewValue), 0}, true
 			}
 		} else {
 			desc = "collection.pullid"
 			pullID = r.Range(1, 3)
+			item0 = exists[pullID]
 			ch := col.PullID(ctx, idNames[pullID], opts...)
 			sub.recv = func() (pmsg, bool) {
 				c, ok := <-ch
 				if !ok {
 					return pmsg{}, false
 				}
-				return pmsg{0, 0, ival(c.Value)}, true
+				return pmsg{0, 0, ival(c.Value), 0}, true
 			}
 			valonly = true
 			stages = append(stages, vcoq.App("StPullID", vcoq.Int(pullID), "None"))
@@ -226,6 +315,19 @@ func (g *gen) pipeScript(idx int) error {
 		steps = r.Range(3, 22)
 	}
 	afterCancel := 0
+	timedOut, sentAfter := false, false
+	// a PullID of an existing item: in a third of the scripts the Delete comes before any other write
+	// to the item ("item pre-existing", nothing sent for it yet when updates-only)
+	removeFirst := pullID != 0 && item0 != 0 && r.Chance(33)
+	newVal := func() int {
+		if cfg.eq != 0 || cfg.inc == 1 {
+			return 10*r.Range(0, 3) + r.Range(1, 3) // few values: equal / equivalent ones and both sides of the filter occur
+		}
+		return r.Range(10, 99)
+	}
+	if timeoutMode {
+		steps += 4
+	}
 	for len(script) < steps {
 		wmu.Lock()
 		wb := blocked
@@ -236,6 +338,20 @@ func (g *gen) pipeScript(idx int) error {
 		var a pact
 		p := r.Intn(100)
 		switch {
+		case timeoutMode && !timedOut && !cancelled && wb == 0:
+			a = pact{kind: "send", m: pmsg{0, 2, r.Range(10, 99), 0}}
+		case timeoutMode && !timedOut && !cancelled:
+			a = pact{kind: "timeout"}
+		case timeoutMode && timedOut && !sentAfter && !cancelled && p < 50:
+			a = pact{kind: "cancel"} // the stalled subscriber cancels; the next write must still go through
+		case timeoutMode && timedOut && !sentAfter && wb == 0:
+			sentAfter = true
+			a = pact{kind: "send", m: pmsg{0, 2, r.Range(10, 99), 0}}
+		case removeFirst && !cancelled && wb == 0 && p < 60:
+			removeFirst = false
+			a = pact{kind: "send", m: pmsg{pullID, int(types.ChangeType_REMOVE), 0, exists[pullID]}}
+			delete(exists, pullID)
+			tags["remove-before-any-write-of-the-item"] = true
 		case !cancelled && p < 8:
 			a = pact{kind: "cancel"}
 		case p < 50 && canRecv:
@@ -243,23 +359,29 @@ func (g *gen) pipeScript(idx int) error {
 		case wb == 0:
 			a = pact{kind: "send"}
 			if kindSel <= 2 {
-				a.m = pmsg{0, 2, r.Range(10, 99)}
+				a.m = pmsg{0, 2, r.Range(10, 99), 0}
 			} else {
 				id := r.Range(1, 3)
 				if pullID != 0 && r.Chance(50) {
 					id = pullID
 				}
+				if id == pullID {
+					removeFirst = false
+				}
 				if _, ok := exists[id]; ok && r.Chance(35) {
-					a.m = pmsg{id, int(types.ChangeType_REMOVE), 0}
+					a.m = pmsg{id, int(types.ChangeType_REMOVE), 0, exists[id]}
 					delete(exists, id)
+					if id == pullID {
+						tags["pullid-item-removed"] = true
+					}
 				} else {
-					v := r.Range(10, 99)
+					v := newVal()
 					k := int(types.ChangeType_UPDATE)
 					if _, ok := exists[id]; !ok {
 						k = int(types.ChangeType_ADD)
 					}
+					a.m = pmsg{id, k, v, exists[id]}
 					exists[id] = v
-					a.m = pmsg{id, k, v}
 				}
 			}
 		case canRecv:
@@ -273,6 +395,20 @@ func (g *gen) pipeScript(idx int) error {
 		switch a.kind {
 		case "send":
 			doWrite(a.m)
+		case "timeout":
+			// wait until the blocked Set has given up (5 s send context), however loaded the machine is
+			timedOut = true
+			tags["writer-gave-up-after-5s"] = true
+			nontrivial = true
+			for dl := time.Now().Add(30 * time.Second); time.Now().Before(dl); {
+				wmu.Lock()
+				b := blocked
+				wmu.Unlock()
+				if b == 0 {
+					break
+				}
+				time.Sleep(20 * time.Millisecond)
+			}
 		case "recv":
 			sub.mu.Lock()
 			sub.pending = true
@@ -298,9 +434,9 @@ func (g *gen) pipeScript(idx int) error {
 			// or never reaches a wait state: report the script that got there as a failing input
 			var js []any
 			for i, b := range script {
-				js = append(js, map[string]any{"action": b.kind, "msg": []int{b.m.id, b.m.kind, b.m.val}, "observed": obs[i]})
+				js = append(js, map[string]any{"action": b.kind, "msg": []int{b.m.id, b.m.kind, b.m.val, b.m.old}, "observed": obs[i]})
 			}
-			js = append(js, map[string]any{"action": a.kind, "msg": []int{a.m.id, a.m.kind, a.m.val}, "observed": "no quiescence"})
+			js = append(js, map[string]any{"action": a.kind, "msg": []int{a.m.id, a.m.kind, a.m.val, a.m.old}, "observed": "no quiescence"})
 			g.o.Directs = append(g.o.Directs, vcoq.Direct{What: "after the last action of this script a goroutine of the library never came to rest: " + err.Error(),
 				Class: "no-quiescence", Replay: map[string]any{"kind": "pipe-script", "subscription": desc, "backpressure": bp,
 					"updates_only": updatesOnly, "stages": stages, "script": js}})
@@ -372,9 +508,9 @@ func (g *gen) pipeScript(idx int) error {
 	js := make([]any, len(script))
 	for i, a := range script {
 		items[i] = vcoq.Pair(a.coq(), zlist(obs[i]))
-		js[i] = map[string]any{"action": a.kind, "msg": []int{a.m.id, a.m.kind, a.m.val}, "observed": obs[i]}
+		js[i] = map[string]any{"action": a.kind, "msg": []int{a.m.id, a.m.kind, a.m.val, a.m.old}, "observed": obs[i]}
 	}
-	coq := vcoq.App("KPipe", vcoq.App("mkPC", vcoq.Bool(valonly), vcoq.List(stages), vcoq.List(items), vcoq.Int(np), vcoq.Int(leaks)))
+	coq := vcoq.App("KPipe", vcoq.App("mkPC", cfg.coq(), vcoq.Int(pullID), vcoq.Int(item0), vcoq.Bool(valonly), vcoq.List(stages), vcoq.List(items), vcoq.Int(np), vcoq.Int(leaks)))
 	tl := []string{"pipe-script", desc}
 	if bp {
 		tl = append(tl, "backpressure")
@@ -385,9 +521,17 @@ func (g *gen) pipeScript(idx int) error {
 	for t := range tags {
 		tl = append(tl, t)
 	}
+	if kindSel > 2 {
+		tl = append(tl, cfg.tags()...)
+		if cfg.eq != 0 && updatesOnly && tags["remove-before-any-write-of-the-item"] {
+			tl = append(tl, "equivalence+updates-only+remove-of-unsent-item")
+		}
+	}
 	g.o.Add(vcoq.Case{Coq: coq, Key: coq, NonTrivial: nontrivial, Tags: tl,
 		JSON: map[string]any{"kind": "pipe-script", "subscription": desc, "backpressure": bp, "updates_only": updatesOnly,
-			"pull_id": pullID, "stages": stages, "script": js, "panics": np, "leaked_goroutines": leaks}})
+			"pull_id": pullID, "item_value_at_start": item0,
+			"equivalence": []string{"none", "WithNoDuplicates", "same value/10"}[cfg.eq],
+			"include": []any{[]string{"none", "value >= t", "id != x"}[cfg.inc], cfg.incT, cfg.incID}, "stages": stages, "script": js, "panics": np, "leaked_goroutines": leaks}})
 	if np > 0 {
 		g.o.Directs = append(g.o.Directs, vcoq.Direct{What: "a writer panicked", Class: "panic",
 			Replay: map[string]any{"kind": "pipe-script", "subscription": desc, "script": js}})
